@@ -177,6 +177,32 @@ func c14Check(c C14Case, rec *evid.Rec) error {
 				return fmt.Errorf("visited (re-parsed) %w", err)
 			}
 		}
+		// the documented nested use: a Focus started from inside the visit of another Focus (its Progress already
+		// has a path) reports the whole path from the root, and reaches the same node
+		if len(segs) >= 2 {
+			k := 1 + (i+len(segs))%(len(segs)-1)
+			prefix, suffix := mkPath(segs[:k]), mkPath(segs[k:])
+			var inner datamodel.Node
+			innerPath := ""
+			nerr := evid.Guard("nested Focus", func() error {
+				return traversal.Progress{Cfg: cfg}.Focus(real.Root, prefix, func(p1 traversal.Progress, n1 datamodel.Node) error {
+					return p1.Focus(n1, suffix, func(p2 traversal.Progress, n2 datamodel.Node) error {
+						inner, innerPath = n2, p2.Path.String()
+						return nil
+					})
+				})
+			})
+			if nerr != nil {
+				return fmt.Errorf("visited path %q: Focus on %q and, inside its visit, Focus on %q failed: %v", p.String(), prefix.String(), suffix.String(), nerr)
+			}
+			if innerPath != mkPath(segs).String() {
+				return fmt.Errorf("visited path %q: a Focus on %q nested inside the visit of a Focus on %q reports Progress.Path %q", p.String(), suffix.String(), prefix.String(), innerPath)
+			}
+			if iv, err := nodes.Read(inner); err != nil || !val.Equal(iv, vv, val.Ordered) {
+				return fmt.Errorf("visited path %q: nested Focus reaches %s, the walk visited %s (err %v)", p.String(), iv.Short(120), vv.Short(120), err)
+			}
+			rec.Class("nested-focus")
+		}
 		if len(segs) >= 2 {
 			nontrivial++
 		}
@@ -217,7 +243,7 @@ func c14Check(c C14Case, rec *evid.Rec) error {
 
 var c14Part = evid.Part[C14Case]{
 	Prop: "C14", Name: "paths", Quick: 1500, Thorough: 150000,
-	Rule: "block graph (keys incl. empty, '/', NUL, numeric-looking) × every visit of an explore-all recursive walk through links (all reachable positions) × Get/Focus/stepwise lookup with the walk's path object, the path rebuilt from strings and the re-parsed string form, plus drawn arbitrary paths (existing prefix + tail, list segments '2','02','+2','-0','x','', through scalars and links); non-trivial = a visit path of length ≥2 or a link crossed, or an arbitrary path failing below the root; distinct by (graph, paths)",
+	Rule: "block graph (keys incl. empty, '/', NUL, numeric-looking) × every visit of an explore-all recursive walk through links (all reachable positions) × Get/Focus/stepwise lookup with the walk's path object (and a Focus on the rest of the path nested inside the visit of a Focus on its beginning), the path rebuilt from strings and the re-parsed string form, plus drawn arbitrary paths (existing prefix + tail, list segments '2','02','+2','-0','x','', through scalars and links); non-trivial = a visit path of length ≥2 or a link crossed, or an arbitrary path failing below the root; distinct by (graph, paths)",
 	Gen: func(t *rapid.T) C14Case {
 		o := graph.DefaultOpts()
 		if rapid.Bool().Draw(t, "richkeys") {
